@@ -337,15 +337,46 @@ def run_case(desc):
                             if 'NewModel' not in t]:
                         # the app's evolution holds nothing else
                         pass
+    forced_fresh = False
+    if desc['mode'] != 'core' and desc['i'] % 4 == 0:
+        # deterministic share of the pattern above: app1 has real work, the
+        # evolution of app2 (processed after it) names nothing but a model
+        # that is created in its final form, so all of it is filtered out
+        from .. import edits as E
+        two = True
+        rng2 = seqcase.rng_for('C14f', desc['seed'], desc['i'])
+        h2 = histories.gen_upgrade(rng2, two_apps=True, with_new_model=False)
+        edits1 = [e for e in h2.steps[0] if e['app'] == 'app1']
+        if edits1:
+            spec = h2.specs[0]
+            texts = []
+            for e in edits1:
+                texts.append(str(E.to_mutation(spec, e)))
+                spec = E.apply_edit(spec, e)
+            spec1 = S.clone(spec)
+            spec1['app2']['NewModel'] = {'fields': [
+                ['q1', {'kind': 'Integer', 'db_index': True}],
+                ['q2', {'kind': 'Char', 'max_length': 20, 'null': True}]],
+                'meta': {}}
+            h2.specs[1] = spec1
+            h2.steps[0] = edits1
+            h2.texts[0] = {'app1': texts, 'app2': [
+                "AddField('NewModel', 'q2', models.CharField, "
+                "max_length=20, null=True)"]}
+            h = h2
+            forced_fresh = True
+        else:
+            two = len(h.specs[0]) > 1
     apps = ('app1', 'app2') if two else ('app1',)
     key = S.canon([h.specs, h.steps])
-    items, stats = [], {'upgrades': 1, 'processes': 0}
+    items, stats = [], {'upgrades': 1, 'processes': 0,
+                        'filtered_out_second_app': int(forced_fresh)}
     proj = projlab.Project()
     hintp = projlab.Project()
     try:
         deps = None
         if two and h.texts[0].get('app1') and h.texts[0].get('app2') and \
-                rng.random() < 0.5:
+                rng.random() < 0.5 and not forced_fresh:
             # a declared order between the two apps' evolutions that differs
             # from the order of INSTALLED_APPS
             deps = {'app1': {'e1': {'AFTER_EVOLUTIONS': [('app2', 'e1')]}}}
@@ -362,15 +393,26 @@ def run_case(desc):
         proj.copy_db('base.db', 'exec.db')
         ex = proj.run('evolve_cmd', version=1, db='exec.db')
         stats['processes'] += 1
-        if ex.get('driver_error') or not ex['outcome']['ok']:
+        if ex.get('driver_error'):
             return {'key': key, 'nontrivial': False, 'items': [],
                     'stats': {'skipped_exec_failed': 1}, 'case': None}
+        # an execution that fails (C01's matter) is still compared with the
+        # preview as far as it got: what it ran must be a prefix of what the
+        # preview listed for that app
+        exec_failed = not ex['outcome']['ok']
+        if exec_failed:
+            stats['exec_failed_prefix_compared'] = 1
         # ---- previews under different hash seeds
         outs = {}
         sha = proj.sha('base.db')
         for hs in SEEDS:
             pv = proj.run('sql', version=1, db='base.db', hashseed=hs)
             stats['processes'] += 1
+            if exec_failed and not pv.get('driver_error') and \
+                    not pv['outcome']['ok']:
+                # preview and execution are refused alike (preparation)
+                stats['preview_and_execution_both_fail'] = 1
+                continue
             if pv.get('driver_error') or not pv['outcome']['ok']:
                 items.append({'type': 'PREVIEW_FAILED', 'hashseed': hs,
                               'detail': str(pv.get('outcome') or pv)[:300]})
@@ -406,6 +448,8 @@ def run_case(desc):
                               'declared_dependency': bool(deps)})
             for app in sorted(set(pv) | set(exb)):
                 p, x = pv.get(app, []), exb.get(app, [])
+                if exec_failed:
+                    p = p[:len(x)]
                 stats['statements_compared'] = stats.get(
                     'statements_compared', 0) + max(len(p), len(x))
                 if p != x:
